@@ -2,10 +2,10 @@ package lint
 
 import (
 	"fmt"
-	"os"
 	"go/constant"
 	"go/token"
 	"go/types"
+	"os"
 	"sort"
 	"strings"
 
@@ -278,8 +278,8 @@ func (m *Model) framesFor(entry *ssa.Function, target *ssa.Function) []*frame {
 	// target is a closure (or function); find its lexical root and a static call path entry -> root
 	root := rootOf(target)
 	type node struct {
-		fn   *ssa.Function
-		fr   *frame
+		fn *ssa.Function
+		fr *frame
 	}
 	var out []*frame
 	seen := map[*ssa.Function]bool{}
@@ -403,6 +403,14 @@ func (m *Model) casPredicateHelper(fn *ssa.Function) (existing, expected int, ok
 	ea, eb := -1, -1
 	paramIdx := func(v ssa.Value) int {
 		v = stripConv(v)
+		if p, ok := v.(*ssa.Parameter); ok {
+			// passed by value
+			for i, q := range fn.Params {
+				if q == p {
+					return i
+				}
+			}
+		}
 		if ld, ok := v.(*ssa.UnOp); ok && ld.Op == token.MUL {
 			if p, ok := ld.X.(*ssa.Parameter); ok {
 				for i, q := range fn.Params {
@@ -573,10 +581,13 @@ func (m *Model) ruleCAS(r *Results) {
 								args := call.Common().Args
 								exOK, why := m.casScanCell(args[ei], K)
 								expIsP := false
-								rv, _ := m.resolve(args[xi], fr)
+								rv, rfr := m.resolve(args[xi], fr)
 								if al, ok := rv.(*ssa.Alloc); ok {
-									if st := singleStore(al); st != nil && stripConv(st.Val) == ssa.Value(P) {
-										expIsP = true
+									if st := singleStore(al); st != nil {
+										sv, _ := m.resolve(st.Val, rfr)
+										if stripConv(sv) == ssa.Value(P) {
+											expIsP = true
+										}
 									}
 								}
 								if exOK && expIsP {
@@ -698,7 +709,59 @@ func (m *Model) sqlCasGuard(s *SQLSite, K *ssa.Function, c *cut, isP func(ssa.Va
 	}
 	ev := newStrEval(m)
 	reach := entryReach(K, c)
-	ev.liveEdge = func(pred, blk *ssa.BasicBlock) bool {
+	// cut CFGs: K's own, and one per inlined statement-building helper (keyed by its call site),
+	// in which only the exemptions "expected CAS == 0" and "insert-only flag set" are removed
+	type cutCFG struct {
+		c     *cut
+		reach map[int]bool
+	}
+	helperCuts := map[ssa.CallInstruction]*cutCFG{}
+	cutFor := func(fr *frame) *cutCFG {
+		if fr.caller == nil {
+			if fr.fn == K {
+				return &cutCFG{c, reach}
+			}
+			return nil
+		}
+		if cc, ok := helperCuts[fr.call]; ok {
+			return cc
+		}
+		hc := newCut()
+		addOnly := m.sgConst("AddOnly")
+		for _, d := range m.decisions(fr.fn, fr) {
+			cd := d.C
+			if _, isEq := cd.equalEdge(); !isEq {
+				continue
+			}
+			x, y := cd.X, cd.Y
+			if !isZeroConst(y) && !isZeroConst(x) {
+				continue
+			}
+			other := x
+			if isZeroConst(x) {
+				other = y
+			}
+			ro, _ := m.resolve(other, fr)
+			if isP(ro) {
+				d.cutEqual(hc)
+				continue
+			}
+			if bo, ok := stripConv(ro).(*ssa.BinOp); ok && bo.Op == token.AND && addOnly != nil {
+				if cst, ok := bo.Y.(*ssa.Const); ok && cst.Value != nil && constant.Compare(cst.Value, token.EQL, addOnly) {
+					d.cutNotEqual(hc)
+				}
+			}
+		}
+		cc := &cutCFG{hc, entryReach(fr.fn, hc)}
+		helperCuts[fr.call] = cc
+		return cc
+	}
+	ev.liveEdge = func(pred, blk *ssa.BasicBlock, fr *frame) bool {
+		cc := cutFor(fr)
+		if cc == nil {
+			return true
+		}
+		c, reach := cc.c, cc.reach
 		if !reach[pred.Index] || c.edges[edge{pred.Index, blk.Index}] {
 			return false
 		}
@@ -721,6 +784,10 @@ func (m *Model) sqlCasGuard(s *SQLSite, K *ssa.Function, c *cut, isP func(ssa.Va
 			return live
 		}
 		return true
+	}
+	ev.liveRet = func(ret *ssa.Return, fr *frame) bool {
+		cc := cutFor(fr)
+		return cc == nil || cc.reach[ret.Block().Index]
 	}
 	if !reach[s.Call.Block().Index] {
 		return false, problems
